@@ -22,7 +22,7 @@ from ..node import NodeError
 LEAVES = ["bool", "int64", "float64"]      # complex128: the Forth machine has no complex output dtype (Form refused)
 KEYS = ["x", "y", "z", "w", "a b"]
 STRS = ["", "a", "abc", "hello", "x y", "é", "0", "zz" * 9]
-INITIAL = [1, 2, 3, 8, 16, 1024]
+INITIAL = [0, 1, 2, 3, 8, 16, 1024]
 RESIZE = [1.01, 1.5, 2.0, 3.7]
 
 
